@@ -1,6 +1,6 @@
 //go:build verif
 
-package app
+package cluster_test
 
 import (
 	"context"
